@@ -92,14 +92,21 @@ Fixpoint temp_loop (mk : str -> op) (fuel : nat) (s : St) (g : tgen) (nconflict 
     end
   end.
 
+(* a pattern with a path separator is refused (errPatternHasSeparator, a *PathError) before anything
+   is created — iff the sources have that check (Gen/Consts.v temp_rejects_separator) *)
+Definition temp_refused (pattern : str) : bool :=
+  (temp_rejects_separator =? 1) && existsb (N.eqb SLASH) pattern.
+
 (* [ostmp] = os.TempDir() *)
 Definition temp_file (ostmp : str) (s : St) (g : tgen) (dir pattern : str) : St * tgen * temp_res :=
   let dir1 := if is_empty dir then ostmp else dir in
+  if temp_refused pattern then (s, g, TempErr (EW KOther)) else
   let '(prefix, suffix) := temp_prefix_suffix pattern in
   temp_loop temp_file_op (Z.to_nat temp_attempts) s g 0 dir1 prefix suffix TempNil.
 
 Definition temp_dir (ostmp : str) (s : St) (g : tgen) (dir prefix : str) : St * tgen * temp_res :=
   let dir1 := if is_empty dir then ostmp else dir in
+  if temp_refused prefix then (s, g, TempErr (EW KOther)) else
   temp_loop temp_dir_op (Z.to_nat temp_attempts) s g 0 dir1 prefix [] TempNil.
 
 (* what the caller of a successful call sees and does next: TempFile -> f.Name(), f.Close();
